@@ -34,6 +34,7 @@ PROPS = {
         "rule": RULE_SCHED + " For this property a run with at least two operations is also non-trivial (earlier results are held across later operations).",
         "scenarios": [
             {"name": "alias-res", "quick": 30000, "thorough": 3000000, "thorough_time": 200, "extra": ["-sim.only=message-changed,read-changed-store,caller-mutation-visible"]},
+            {"name": "alias-race", "quick": 20000, "thorough": 1000000, "thorough_time": 80, "extra": ["-sim.only=message-changed,read-changed-store,caller-mutation-visible"]},
             {"name": "alias-models", "quick": 40000, "thorough": 3000000, "thorough_time": 300, "extra": ["-sim.only=message-changed,read-changed-store,caller-mutation-visible"]},
             {"name": "alias-tween", "quick": 8000, "thorough": 100000, "thorough_time": 30, "extra": ["-sim.only=caller-mutation-visible"]},
         ],
